@@ -381,6 +381,20 @@ func (po *PO) Solve(q POQuery, timeout time.Duration) POResult {
 	if q.Race {
 		races = po.racePairs()
 		var alts []*smt.Term
+		// The racing pair sits at the two ends of a gap [g,h] of the global order that no other
+		// executed event falls into strictly (events with a clock equal to g or h are independent
+		// of the pair's member at that clock by the coherence constraints and can be linearised
+		// outside the pair). One gap for the whole query: |pairs| + |events| constraints instead
+		// of |pairs| x |events|.
+		g := smt.Var("race!g", smt.Int)
+		h := smt.Var("race!h", smt.Int)
+		as = append(as, cLt(g, h))
+		for _, e := range evs {
+			if e.T.Final || e.Kind == "root" {
+				continue
+			}
+			as = append(as, smt.Implies(e.X, smt.Or(cLe(e.C, g), cLe(h, e.C))))
+		}
 		for _, rc := range races {
 			if q.RaceExcl[rc.Key()] {
 				continue
@@ -392,15 +406,7 @@ func (po *PO) Solve(q POQuery, timeout time.Duration) POResult {
 			if rc.BA.WV != nil && rc.BA.WG != nil {
 				cs = append(cs, rc.BA.WG)
 			}
-			// no executed event strictly between the two (events with equal clocks are
-			// independent and can be linearised outside the pair)
-			for _, e := range evs {
-				if e == rc.A || e == rc.B || e.T.Final || e.Kind == "root" {
-					continue
-				}
-				between := smt.Or(smt.And(cLt(rc.A.C, e.C), cLt(e.C, rc.B.C)), smt.And(cLt(rc.B.C, e.C), cLt(e.C, rc.A.C)))
-				cs = append(cs, smt.Not(smt.And(e.X, between)))
-			}
+			cs = append(cs, smt.Or(smt.And(smt.Eq(rc.A.C, g), smt.Eq(rc.B.C, h)), smt.And(smt.Eq(rc.B.C, g), smt.Eq(rc.A.C, h))))
 			as = append(as, smt.Implies(rc.Var, smt.And(cs...)))
 			alts = append(alts, rc.Var)
 		}
